@@ -23,6 +23,10 @@ type Observed struct {
 	Notes []string  `json:"notes,omitempty"` // fields that could not be read (layout changed)
 }
 
+// Unread marks a setting that could not be read off the manager (the layout of an unexported
+// structure changed): it is reported as a note and never compared.
+const Unread = -1
+
 func funcName(v reflect.Value) string {
 	if v.Kind() != reflect.Func || v.IsNil() {
 		return ""
@@ -122,6 +126,7 @@ func Observe(abs *Cfg, sc *service.Config, m *service.Manager) Observed {
 		as := &abs.Servers[i]
 		var es EffServer
 		es.TCP, es.UDP = []EffTCP{}, []EffUDP{}
+		es.MTU, es.Swf = Unread, Unread
 		r := byName[as.Name]
 		if r == nil {
 			r = &relays{}
@@ -131,20 +136,25 @@ func Observe(abs *Cfg, sc *service.Config, m *service.Manager) Observed {
 				for j := 0; j < ls.Len(); j++ {
 					l := ls.Index(j)
 					var e EffTCP
-					if f, ok := field(l, "initialPayloadWaitTimeout"); ok && f.CanInt() {
+					ok := true
+					if f, fok := field(l, "initialPayloadWaitTimeout"); fok && f.CanInt() {
 						e.Ipw = int(time.Duration(f.Int()) / time.Millisecond)
 					} else {
-						note("tcp listener initialPayloadWaitTimeout not readable")
+						ok = false
 					}
-					if f, ok := field(l, "initialPayloadWaitBufferSize"); ok && f.CanInt() {
+					if f, fok := field(l, "initialPayloadWaitBufferSize"); fok && f.CanInt() {
 						e.Ipb = int(f.Int())
 					} else {
-						note("tcp listener initialPayloadWaitBufferSize not readable")
+						ok = false
 					}
-					if f, ok := field(l, "waitForInitialPayload"); ok && f.Kind() == reflect.Bool {
+					if f, fok := field(l, "waitForInitialPayload"); fok && f.Kind() == reflect.Bool {
 						e.Wait = f.Bool()
 					} else {
-						note("tcp listener waitForInitialPayload not readable")
+						ok = false
+					}
+					if !ok {
+						note("server %d: TCP listener settings not readable (layout changed)", i)
+						e = EffTCP{Ipw: Unread}
 					}
 					es.TCP = append(es.TCP, e)
 				}
@@ -166,21 +176,24 @@ func Observe(abs *Cfg, sc *service.Config, m *service.Manager) Observed {
 				for j := 0; j < ls.Len(); j++ {
 					l := ls.Index(j)
 					var e EffUDP
+					ok := true
 					rd := func(name string) int {
-						if f, ok := field(l, name); ok && f.CanInt() {
+						if f, fok := field(l, name); fok && f.CanInt() {
 							return int(f.Int())
 						}
-						note("udp listener %s not readable", name)
+						ok = false
 						return 0
 					}
-					if f, ok := field(l, "natTimeout"); ok && f.CanInt() {
-						e.Nat = int(time.Duration(f.Int()) / time.Millisecond)
-					} else {
-						note("udp listener natTimeout not readable")
-					}
+					e.Nat = int(time.Duration(rd("natTimeout")) / time.Millisecond)
 					e.Rb, e.Sb, e.Cap = rd("relayBatchSize"), rd("serverRecvBatchSize"), rd("sendChannelCapacity")
-					if f, ok := field(l, "batchMode"); ok && f.Kind() == reflect.String {
+					if f, fok := field(l, "batchMode"); fok && f.Kind() == reflect.String {
 						e.Bm = f.String()
+					} else {
+						ok = false
+					}
+					if !ok {
+						note("server %d: UDP listener settings not readable (layout changed)", i)
+						e = EffUDP{Nat: Unread}
 					}
 					es.UDP = append(es.UDP, e)
 				}
@@ -189,6 +202,9 @@ func Observe(abs *Cfg, sc *service.Config, m *service.Manager) Observed {
 			}
 			if f, ok := field(r.udp, "mtu"); ok && f.CanInt() {
 				es.MTU = int(f.Int())
+			} else {
+				note("server %d: relay mtu not readable", i)
+				es.MTU = Unread
 			}
 			if Is2022(as.Proto) {
 				if srv, ok := field(r.udp, "server"); ok {
@@ -201,6 +217,7 @@ func Observe(abs *Cfg, sc *service.Config, m *service.Manager) Observed {
 						es.Swf = int(f.Uint())
 					} else {
 						note("UDPServer.filterSize not readable")
+						es.Swf = Unread
 					}
 				}
 			}
